@@ -3,14 +3,14 @@ import itertools
 
 ID = 'C06'
 RULE = ('one case = 2-4 real nodes over loopback RPC; bulk writes (put_many/del_many shapes: 1-300 documents under one stamp through the real multi_put/multi_del) and, for every operation kind (put, del) and every subset S of the other nodes standing for the replicas the level selected (sizes 0..n-1: None, One, Two, Three, '
-        'quorum-sized, All), every subset of S is made unable to acknowledge (its next storage mutation fails, or it has crashed and refuses connections while still selected), the write is issued through the real handle_consistency_distribution, and immediately afterwards '
+        'quorum-sized, All), every subset of S is made unable to acknowledge (its next storage mutation fails, or it has crashed and refuses connections while still selected, or - separate stream - it stays SILENT: its storage call writes and never returns, and the call must still come back with the consistency error within the advertised timeout), the write is issued through the real handle_consistency_distribution, and immediately afterwards '
         'Storage::get is called on the issuer and on every selected node. Checked: Ok => the document (or a newer record) is readable from the issuer and from EVERY selected node; otherwise the error is '
         'ConsistencyFailure{responses = number that acknowledged, required = |S|}, and the local write is in place. Also a prior newer write on a replica (will_apply = false => acknowledged without a storage call). '
         'non-trivial = at least one failing replica and at least one acknowledging one; distinct by hash. Selection of S for a level is C15\'s business.')
 ASSUMPTIONS = ['the replicas a level requires are chosen by the node selector (C15: select_sound gives distinct, live, non-local, enough); here S is given',
-               'no RPC timeout exists in put/del: a hung replica blocks the call (liveness, not claimed)']
+               'a silent replica is one whose storage call never returns; a silent NETWORK (black-holed connection) takes the same path in handle_consistency_distribution - the deadline is on the whole distribution, not per transport']
 TRUSTED_BASE = ['correspondence: dcharness (real ConsistencyClient/ConsistencyService + handle_consistency_distribution via hook H2) vs dcdriver (Datacake.Cluster model)']
-THEOREM_NOTE = 'Datacake.Cluster.applyAt and the wput/wdel step of the driver (Model/Cluster.lean); theorems ok_means_stored, failure_counts'
+THEOREM_NOTE = 'Datacake.Cluster.applyAt and the wput/wdel step of the driver (Model/Cluster.lean); theorems ok_means_stored, distribute_spec, distribute_replies, silent_is_counted_out, legacy_blocks'
 JOBS = 6
 SHRINK = False
 
@@ -75,6 +75,36 @@ def generate(rng, tier):
         for j in failing: lines.append('clearfail %d' % j); lines.append('reach %d' % j)
         lines.append('sel %s fail %s' % (tg, ','.join(map(str, failing)) or '-'))
         lines.append('end'); cases.append(lines); idx += 1
+    # replicas that do not ANSWER (D18): the storage call of a selected replica performs the write and never returns (wedged
+    # disk, frozen process, black-holed connection). The call must still return - the consistency error with the count of the
+    # others - within the advertised timeout (2 s); the harness gives up after 8 s and prints `blocked`.
+    hang_cases = []
+    for n in (2, 3, 4):
+        others = list(range(1, n))
+        for k in range(1, n):
+            for S in itertools.combinations(others, k):
+                for hung in S:
+                    rest = [j for j in S if j != hung]
+                    for failing in ([()] + [(j,) for j in rest]):
+                        for kind in ('wput', 'wdel', 'wmput'):
+                            lines = ['nodes %d' % n]
+                            if kind == 'wdel':
+                                lines.append('put 0 5 aa')
+                                for j in others: lines.append('deliver %d 0' % j)
+                            lines.append('hangnext %d' % hung)
+                            for j in failing: lines.append(('failnext %d' if rng.chance(1, 2) else 'unreach %d') % j)
+                            tg = ','.join(map(str, S))
+                            if kind == 'wmput': lines.append('wmput 0 %s 5 3 bb' % tg)
+                            else: lines.append('%s 0 %s 5%s' % (kind, tg, ' bb' if kind == 'wput' else ''))
+                            lines.append('get 0 5'); lines.append('read 0')
+                            for j in others:
+                                lines.append('get %d 5' % j)
+                                if j != hung: lines.append('read %d' % j)
+                            lines.append('sel %s fail %s hung %d' % (tg, ','.join(map(str, failing)) or '-', hung))
+                            lines.append('end'); hang_cases.append(lines)
+    hang_cases = rng.shuffle(hang_cases)[:dict(quick=18, thorough=len(hang_cases), search=40)[tier]]
+    for lines in hang_cases:
+        cases.append(['case %d cluster' % idx] + lines); idx += 1
     # random multi-step cases
     for _ in range(dict(quick=60, thorough=3000, search=600)[tier]):
         n = rng.range(2, 4)
@@ -173,12 +203,14 @@ def oracle(case, impl):
                     if int(b) != len(S): bad.append('%s: required=%s but %d replicas were selected' % (line, b, len(S)))
                     holding = sum(1 for sn in S if not missing(sn))
                     if int(a) > holding: bad.append('%s: reports %s acknowledgements but only %d replicas hold the whole batch' % (line, a, holding))
+                else:
+                    bad.append('%s: %s' % (line, out))
         i += 1
     return bad
 
 
 def nontrivial(case, impl):
-    return any(o.startswith('consistency') and not o.startswith('consistency 0/') for o in impl) or any(l.startswith(('failnext', 'unreach')) for l in case)
+    return any(o.startswith('consistency') and not o.startswith('consistency 0/') for o in impl) or any(l.startswith(('failnext', 'unreach', 'hangnext')) for l in case)
 
 
 def stats(verdicts):
@@ -192,4 +224,5 @@ def stats(verdicts):
             elif l.startswith('get'): d['gets'] += 1
             elif l.startswith('unreach'): d['replica_crashed'] = d.get('replica_crashed', 0) + 1
             elif l.startswith('failnext'): d['replica_storage_failure'] = d.get('replica_storage_failure', 0) + 1
+            elif l.startswith('hangnext'): d['replica_silent'] = d.get('replica_silent', 0) + 1
     return d
